@@ -17,6 +17,7 @@ ASSUMPTIONS = ["VecDeque / Vec / sort behave as documented", "rustc nightly MIR 
 
 
 def run(ctx):
+    _ownership(ctx)
     _wiring(ctx)
     ctx.rule('R13.1', 'histories: one push_back per detection, lock-step pop_front under len > history_length')
     ctx.floor('R13.1', M.rule_histories(ctx, 'R13.1'), 19)
@@ -34,3 +35,10 @@ def _wiring(ctx):
     import wiring
     ctx.rule('R13.5', 'configuration plumbing: same-named fields / parameters / setters / call arguments are not crossed')
     ctx.floor('R13.5', wiring.run(ctx, 'R13.5', {'visual_max_observations', 'visual_minimal_quality_collect', 'visual_minimal_own_area_percentage_collect', 'history_length'}), 14)
+
+
+def _ownership(ctx):
+    """who-may-write rows of rules/ownership.py that concern this property"""
+    import ownership
+    ctx.rule('R13.6', 'who-may-write: state this property depends on is changed only by its owners (rules/ownership.py)')
+    ctx.floor('R13.6', ownership.run(ctx, 'R13.6', 'C13'), 8)
